@@ -301,12 +301,28 @@ func (e *fakeEnv) advance(d time.Duration) {
 // waitStatus waits (watchdog) until the job's status is one of the given ones.
 func (e *fakeEnv) waitStatus(d time.Duration, want ...string) bool {
 	deadline := time.Now().Add(d)
+	e.mu.Lock()
+	deploys0 := e.nDeploys
+	e.mu.Unlock()
 	for time.Now().Before(deadline) {
 		e.sync()
 		s := e.job.VerifStatus()
 		for _, w := range want {
 			if s == w {
 				return true
+			}
+		}
+		// While a dead member is still registered and unexpired the job retries the failing deployment in a tight
+		// loop (Starting -> Paused -> Starting ...; the clock is frozen, so nothing expires by itself): that is a
+		// settled condition too, equivalent to Paused.
+		e.mu.Lock()
+		retrying := e.nDeploys-deploys0 >= 20 && !e.parked
+		e.mu.Unlock()
+		if retrying {
+			for _, w := range want {
+				if w == "Paused" {
+					return true
+				}
 			}
 		}
 		time.Sleep(200 * time.Microsecond)
@@ -352,7 +368,9 @@ func c15FakeRun(c *lib.Ctx, c12only bool) {
 	for i := 0; i < workers+standbys; i++ {
 		o := &fnode{id: fmt.Sprintf("op%d.%d", i, c.Index), isOp: true, alive: true}
 		s := &fnode{id: fmt.Sprintf("sr%d.%d", i, c.Index), alive: true}
+		e.mu.Lock() // the hooks are installed: the job of an earlier case may call in at any time
 		e.nodes[o.id], e.nodes[s.id] = o, s
+		e.mu.Unlock()
 		ops, srs = append(ops, o), append(srs, s)
 	}
 	all := append(append([]*fnode{}, ops...), srs...)
@@ -417,10 +435,22 @@ func c15FakeRun(c *lib.Ctx, c12only bool) {
 		}
 	}
 	defer func() {
-		// nothing of this case's job may still be deploying when the next case installs its hooks
+		// nothing of this case's job may still be deploying when the next case installs its hooks, and the job must
+		// not be left retrying a deploy to dead-but-registered nodes (its hook events would reach the next case):
+		// every node dies, their heartbeats expire, and one evaluation purges the registry
 		releaseSlow()
 		e.sync()
 		e.waitStatus(2*time.Second, "Running", "Paused", "Init")
+		e.mu.Lock()
+		for _, n := range e.nodes {
+			n.alive = false
+		}
+		e.mu.Unlock()
+		e.advance(10 * time.Second)
+		e.job.HandleDeregisterOperator(&jobpb.NodeIdentity{Id: "nobody", Host: "x"})
+		e.sync()
+		e.waitStatus(2*time.Second, "Paused", "Init")
+		e.sync()
 	}()
 	// directedLateAcks (C12's job-level rule, driven on purpose): a checkpoint is in progress, the members that are
 	// about to leave have acknowledged it, they leave, replacements register, and while the job deploys the next
